@@ -23,6 +23,9 @@ CROSS = {
     "C02-B": ["C15"],
     # wave 3: changes whose effect belongs to another property's check as well
     "C10-B3": ["C12"], "C03-B3": ["C15"], "C08-B3": ["C01"], "C04-A3": ["C12"],
+    # wave 4
+    "C02-A4": ["C03"], "C04-B4": ["C07"], "C05-B4": ["C12"], "C07-B4": ["C16", "C01"], "C01-A4": ["C07"], "C11-A4": ["C10"], "C11-B4": ["C02"],
+    "C08-A4": ["C01"],
 }
 
 
